@@ -1,6 +1,8 @@
 //! e57h — conformance harness binding the TLA+ specification in /verif/spec to cry-inc/e57.
 //! It drives the real code and records what happened; verdicts are TLC's.
 mod c07;
+mod c15;
+mod c16;
 mod c17;
 mod conv;
 mod dev;
@@ -28,6 +30,8 @@ fn main() {
     let r = match args[1].as_str() {
         "page-replay-w" => page::replay_w(&arg(&args, "--edges").expect("--edges"), &out),
         "c07-run" => c07::run(&arg(&args, "--progs").expect("--progs"), &arg(&args, "--mode").unwrap_or_else(|| "sample".into()), seed, argn(&args, "--samples", 100) as usize, &out),
+        "c15-run" => c15::run(&arg(&args, "--progs").expect("--progs"), arg(&args, "--allcuts").is_some(), &out),
+        "c16-run" => c16::run(&arg(&args, "--progs").expect("--progs"), seed, argn(&args, "--scheds", 6) as usize, &out),
         "c17-run" => c17::run(&arg(&args, "--progs").expect("--progs"), argn(&args, "--depth", 2) as usize, &out),
         "e57-run" => prog::run_programs(&arg(&args, "--progs").expect("--progs"), &out),
         "page-replay-r" => page::replay_r(&arg(&args, "--edges").expect("--edges"), &out),
